@@ -40,6 +40,24 @@ CHECKS = {
               "validated (order of equal counts left free)."),
         note="default threshold floor(phi*n_added) is computed by the harness with float64 arithmetic and logged; trusted base as C03",
         technique="TLA+ spec + TLC exhaustive check; edge replay; trace validation"),
+    "C02": dict(
+        category="model_checking", design_ref="DESIGN.md 4.2",
+        text=("TLC checks UnionSemantics (registers = registers of a fresh sketch fed each distinct key once) and the merge "
+              "laws on all orders, duplications, batchings, partitions over up to 3 slots and merge trees of 4 keys under "
+              "every placement incl. equal placements and the maximum rank; explored transitions are replayed on the real "
+              "class with 8-byte keys constructed (FastHash is a bijection on 8-byte blocks) to hit chosen registers and ranks "
+              "1, 2 and 64-p+1 for p 7..16 and boundary seeds; recorded histories are validated with every key's register index "
+              "and rank recomputed by Hashes.tla (anchored to SMHasher) incl. the nlz64 branch structure."),
+        note="trusted: TLC, Hashes.tla anchor (SMHasher verification value), numpy; query() equality is derived from register equality plus the recorded functional dependence of query() on registers",
+        technique="TLA+ spec + TLC exhaustive check; edge replay with constructed keys; trace validation with spec-side hashing"),
+    "C11": dict(
+        category="model_checking", design_ref="DESIGN.md 4.11",
+        text=("Hashes.tla transcribes FastHash64/32 and MurmurHash3_x86_32 over byte-limb words and is anchored, in every run, to "
+              "SMHasher's published verification values (0xA16231A7, 0xE9481AFC, 0xB0F57EE3) evaluated by TLC; every recorded call "
+              "of the three real functions (all lengths 0..257, biased bytes, boundary seeds, sliced keys, a second interpreter "
+              "with another PYTHONHASHSEED, repeated calls) is one trace event that TLC recomputes and compares."),
+        note="trusted: SMHasher constants identify the reference algorithms; TLC Bitwise overrides",
+        technique="TLA+ transcription of the reference hashes checked by TLC; trace validation of recorded calls"),
 }
 
 NOT_APPLICABLE = {
